@@ -101,8 +101,10 @@ Definition crash_atomic_at (fx : fixes) (maxsz : N) (ops : list wal_op) (i j : n
   end.
 
 Definition valid_rec (r : record) : Prop := rid r < two64 /\ blen (rdata r) <= max_data.
+(* ids stay below 2^64 - 1 (the code computes "last id + 1" in uint64) *)
+Definition id_room (r : record) : Prop := rid r + 1 < two64.
 Definition valid_op (op : wal_op) : Prop :=
-  match op with OAppend recs => Forall valid_rec recs | _ => True end.
+  match op with OAppend recs => Forall valid_rec recs /\ Forall id_room recs | _ => True end.
 
 (* the statement of the target theorem wal_crash_atomic (DESIGN.md appendix C), for a given variant of the code *)
 Definition wal_crash_atomic_stmt (fx : fixes) : Prop :=
